@@ -272,6 +272,30 @@ def rule_wiring(chk, prog):
             bad = bad or "the non-overlap constraint object is not appended to extraConstraints on %s" % g.describe(w)
         r.count()
         (r.bad if bad else r.ok)("non-overlap arm %d" % (i + 1), fn.loc(nw), bad or "")
+    # nodes that no cluster lists belong to the root cluster (documented); only as children of the root do they get non-overlap pairs
+    ins = [c for c in calls(fn) if c.get("cname", "").endswith("::insert") and norm(call_object(c)) == "clusterHierarchy.nodes"]
+    r.count()
+    bad = None
+    if len(ins) != 1:
+        bad = "expected one place where unlisted nodes are added to the root cluster, found %d" % len(ins)
+    else:
+        pc = path_condition(fn, ins[0], inline=False)
+        ats = [a for a in atoms(pc) if a not in ("(clusterHierarchy && !clusterHierarchy.flat())", "clusterHierarchy", "clusterHierarchy.flat()")
+               and "nodesInClusterCounts.size()" not in a]
+        import re as _re
+        cnt = [a for a in ats if _re.fullmatch(r"\(?(count\s*(==|!=|<|>|<=|>=)\s*\d+|\d+\s*(==|!=|<|>|<=|>=)\s*count)\)?", a)]
+        other = [a for a in ats if a not in cnt]
+        zero = [a for a in cnt if a.replace(" ", "").strip("()") in ("count==0", "0==count")]
+        sal = single_assignment_locals(fn)
+        if other:
+            bad = "a node no cluster lists is added to the root cluster only under the further condition(s) %s" % other[:2]
+        elif not zero or not entails(pc, ("atom", zero[0])):
+            bad = "the test for `listed by no cluster` is %s, not count == 0" % cnt
+        elif "nodesInClusterCounts[i]" not in norm(ins[0] and [d for d in fn.nodes() if d.get("k") == "VarDecl" and d.get("name") == "count"][0].get("init")):
+            bad = "`count` is not the number of clusters listing node i"
+        elif norm(call_args(ins[0])[0]) != "i":
+            bad = "`%s` is added to the root cluster instead of the unlisted node i" % norm(call_args(ins[0])[0])
+    (r.bad if bad else r.ok)("unlisted nodes join the root cluster", fn.loc(ins[0]) if ins else fn.where(), bad or "")
     fn = prog.fn("cola::ConstrainedFDLayout::recGenerateClusterVariablesAndConstraints")
     g = CFG(fn)
     bad = None
@@ -440,6 +464,47 @@ def rule_cluster_geometry(chk, prog):
         (r2.bad if bad else r2.ok)("createVars dim %d" % dim, fc.where(), bad or "")
 
 
+def rule_fixed_rect(chk, prog):
+    """A cluster built on a fixed rectangle is tied to that rectangle on all four sides."""
+    from ..microai.interp import default_obj
+    r = chk.rule("FIXED-RECT-TIES", "RectangularCluster::generateFixedRectangleConstraints interpreted for a cluster based on rectangle k (boundary "
+                 "variables v, v+1; rectangle w x h): exactly four separation constraints are registered, all EQUALITIES: x: v + w/2 = k and "
+                 "k + w/2 = v+1; y: v + h/2 = k and k + h/2 = v+1 -- an inequality lets the boundary (which contains the children) drift away "
+                 "from the rectangle (which keeps outsiders out); nothing is generated for a cluster without a rectangle", floor=2)
+    fn = prog.fn("cola::RectangularCluster::generateFixedRectangleConstraints")
+    made = []
+
+    def sc_ctor(it, o, args, env):
+        vals = [it.ev(a, env) for a in args]
+        o.f["_args"] = vals
+        made.append(o)
+    for rect_index in (2, -1):
+        del made[:]
+        cl = default_obj(prog, "cola::RectangularCluster", {"m_rectangle_index": rect_index, "clusterVarId": 7})
+        rects = Vec([Obj("vpsc::Rectangle", {"_w": Fraction(10 * (i + 1)), "_h": Fraction(6 * (i + 1))}) for i in range(4)], "vpsc::Rectangle *")
+        it = Interp(prog, Oracle([]))
+        it.ctor_hooks = {"cola::SeparationConstraint": sc_ctor}
+        it.vhooks["vpsc::Rectangle::width"] = lambda it_, recv, args: recv.f["_w"]
+        it.vhooks["vpsc::Rectangle::height"] = lambda it_, recv, args: recv.f["_h"]
+        idle = Vec([], "cola::CompoundConstraint *")
+        try:
+            it.call(fn, cl, None, None, arg_values=[Box(idle), Box(rects), None])
+        except Unsupported as e:
+            raise AnalysisBroken("generateFixedRectangleConstraints outside the interpreter subset: %s" % e)
+        r.count()
+        got = sorted((a[0], a[1], a[2], a[3], bool(a[4]) if len(a) > 4 else False) for a in (o.f["_args"] for o in idle.items))
+        if rect_index < 0:
+            (r.ok if not got else r.bad)("cluster without a rectangle", fn.where(), "" if not got else "constraints %s are generated" % got)
+            continue
+        want = sorted([(0, 7, 2, Fraction(15), True), (0, 2, 8, Fraction(15), True), (1, 7, 2, Fraction(9), True), (1, 2, 8, Fraction(9), True)])
+        bad = None
+        if got != want:
+            miss = [w for w in want if w not in got]
+            bad = "registered (dim, left, right, gap, equality) = %s; missing or changed: %s" % (
+                [(a, b, c, str(d), e) for a, b, c, d, e in got], [(a, b, c, str(d), e) for a, b, c, d, e in miss])
+        (r.bad if bad else r.ok)("cluster on rectangle 2 (30 x 18), boundary variables 7 / 8", fn.where(), bad or "")
+
+
 def run(chk):
     prog = chk.load()
     rule_pairs(chk, prog)
@@ -448,3 +513,4 @@ def run(chk):
     rule_sites(chk, prog)
     rule_wiring(chk, prog)
     rule_cluster_geometry(chk, prog)
+    rule_fixed_rect(chk, prog)
